@@ -724,7 +724,10 @@ class IntegralOracle:
             idx = kw["idx"]
             full = dnp.calculate_enhancement(pre, off_spectrum_index=idx, return_complex_values=True)
             ref = np.take(np.asarray(full.values), idx, axis=0)
-            if not np.allclose(ref, 1.0, rtol=0, atol=1e-12):
+            # "the reference entry is exactly 1": x / x is 1 in IEEE arithmetic for every finite non-zero real x; one rounding
+            # is allowed for a complex quotient
+            exact = np.all(ref == 1.0) if not np.iscomplexobj(pre.values) else np.allclose(ref, 1.0, rtol=0, atol=4e-16)
+            if not exact:
                 out.append("C12:reference-not-one:" + sig)
             # the definition: every integral divided by the reference integral (complex division), and the default
             # (return_complex_values=False) is the real part of exactly that
